@@ -132,20 +132,24 @@ fn exact_2d(d: &mut Draw) -> Outcome {
 fn f64_3d(d: &mut Draw) -> Outcome {
     let a = f_unit3(d);
     let use_deg = d.bool();
-    let gen_t = |d: &mut Draw| match d.int(0, 5) {
+    let gen_t = |d: &mut Draw| match d.int(0, 6) {
         0 => d.f64_slog(1e-14, 1e-2),
         1 => (d.int(-12, 12) as f64) * std::f64::consts::FRAC_PI_2 + d.f64_slog(1e-14, 1e-3),
+        // many turns: sin/cos of the float angle itself are what the statement names, whatever its size
+        2 => d.f64_slog(20.0, 1e15),
         _ => d.f64_in(-20.0, 20.0),
     };
     let t = gen_t(d);
-    let t2 = gen_t(d);
+    let t2 = if t.abs() > 20.0 { d.f64_in(-20.0, 20.0) } else { gen_t(d) };
     let v = Vector3::from(f_vec3(d, -10.0, 10.0));
     d.note("axis", &a);
     d.note("angle(rad), given as Deg?", &(t, use_deg));
     d.note("v", &v);
     let axis = Vector3::from(a);
     let want = Vector3::from(rodrigues(&a, t.sin(), t.cos(), &v3(v)));
-    let tol = 1e-12 * (1.0 + v.magnitude());
+    // a Deg argument reaches the trigonometric functions through one rounded multiplication: 2 eps |t| in the angle
+    let conv = if use_deg { 4.0 * f64::EPSILON * t.abs() } else { 0.0 };
+    let tol = (1e-12 + conv) * (1.0 + v.magnitude());
     let deg = Deg(t * 180.0 / std::f64::consts::PI);
     let (m3, m4, b3, qt): (Matrix3<f64>, Matrix4<f64>, Basis3<f64>, Quaternion<f64>) = if use_deg {
         (Matrix3::from_axis_angle(axis, deg), Matrix4::from_axis_angle(axis, deg), Rotation3::from_axis_angle(axis, deg), Rotation3::from_axis_angle(axis, deg))
@@ -177,33 +181,41 @@ fn f64_3d(d: &mut Draw) -> Outcome {
     };
     for i in 0..3 {
         let e = ms[i].rm().max_abs_diff(&refs[i]);
-        ensure!(e <= 1e-12, "matrix3-from_angle-f64", "Matrix3::from_angle_{} differs from the reference by {:e}", ["x", "y", "z"][i], e);
+        ensure!(e <= 1e-12 + conv, "matrix3-from_angle-f64", "Matrix3::from_angle_{} differs from the reference by {:e}", ["x", "y", "z"][i], e);
         let e = Matrix3::from(qs[i]).rm().max_abs_diff(&refs[i]);
-        ensure!(e <= 1e-12, "quaternion-from_angle-f64", "Quaternion::from_angle_{} differs from the reference by {:e}", ["x", "y", "z"][i], e);
+        ensure!(e <= 1e-12 + conv, "quaternion-from_angle-f64", "Quaternion::from_angle_{} differs from the reference by {:e}", ["x", "y", "z"][i], e);
     }
     // composition about a common axis
     let q2: Quaternion<f64> = Rotation3::from_axis_angle(axis, Rad(t2));
     let q12: Quaternion<f64> = Rotation3::from_axis_angle(axis, Rad(t + t2));
     let e = ((qt * q2) * v - q12 * v).magnitude();
-    ensure!(e <= 4.0 * tol, "angles-add-f64", "R(a,t1)R(a,t2) vs R(a,t1+t2) differ by {:e} on v", e);
+    // t + t2 is rounded once: eps |t + t2| in the angle
+    ensure!(e <= 4.0 * tol + 2.0 * f64::EPSILON * (t + t2).abs() * (1.0 + v.magnitude()), "angles-add-f64", "R(a,t1)R(a,t2) vs R(a,t1+t2) differ by {:e} on v", e);
     let nt = t.sin().abs() > 1e-3 && t.cos().abs() > 1e-3 && a.iter().all(|c| c.abs() > 1e-3);
     pass(if use_deg { "deg" } else { "rad" }, nt)
 }
 
 fn f64_2d(d: &mut Draw) -> Outcome {
     let use_deg = d.bool();
-    let t = d.f64_in(-20.0, 20.0);
+    let t = match d.int(0, 6) {
+        0 => d.f64_slog(1e-14, 1e-2),
+        1 => (d.int(-12, 12) as f64) * std::f64::consts::FRAC_PI_2 + d.f64_slog(1e-14, 1e-3),
+        2 => d.f64_slog(20.0, 1e15),
+        3 => (d.int(-12, 12) as f64) * std::f64::consts::FRAC_PI_2,
+        _ => d.f64_in(-20.0, 20.0),
+    };
     d.note("angle(rad), given as Deg?", &(t, use_deg));
     let deg = Deg(t * 180.0 / std::f64::consts::PI);
+    let tol2 = 1e-12 + if use_deg { 4.0 * f64::EPSILON * t.abs() } else { 0.0 };
     let (m, b): (Matrix2<f64>, Basis2<f64>) =
         if use_deg { (Matrix2::from_angle(deg), Rotation2::from_angle(deg)) } else { (Matrix2::from_angle(Rad(t)), Rotation2::from_angle(Rad(t))) };
     let (s, c) = (t.sin(), t.cos());
     let ex = m * Vector2::unit_x();
     let ey = m * Vector2::unit_y();
-    ensure!((ex - Vector2::new(c, s)).magnitude() <= 1e-12, "matrix2-ex-f64", "(1,0) -> {:?}, expected ({}, {})", ex, c, s);
-    ensure!((ey - Vector2::new(-s, c)).magnitude() <= 1e-12, "matrix2-ey-f64", "(0,1) -> {:?}, expected ({}, {})", ey, -s, c);
+    ensure!((ex - Vector2::new(c, s)).magnitude() <= tol2, "matrix2-ex-f64", "(1,0) -> {:?}, expected ({}, {})", ex, c, s);
+    ensure!((ey - Vector2::new(-s, c)).magnitude() <= tol2, "matrix2-ey-f64", "(0,1) -> {:?}, expected ({}, {})", ey, -s, c);
     let bx = b.rotate_vector(Vector2::unit_x());
-    ensure!((bx - Vector2::new(c, s)).magnitude() <= 1e-12, "basis2-ex-f64", "Basis2 (1,0) -> {:?}", bx);
+    ensure!((bx - Vector2::new(c, s)).magnitude() <= tol2, "basis2-ex-f64", "Basis2 (1,0) -> {:?}", bx);
     pass(if use_deg { "deg" } else { "rad" }, s.abs() > 1e-3 && c.abs() > 1e-3)
 }
 
@@ -228,7 +240,7 @@ pub fn property() -> Property {
         assumptions: &[
             "axes are exactly unit (rational points of the sphere) in Q and normalised in f64; non-unit axes are outside the statement",
             "Q tier: angles are *named* — a registry maps the rational name theta to an exact rational point (cos, sin) of the unit circle and theta/2 to its half-angle pair, so every identity following from sin^2+cos^2=1 and the angle-addition formulas is decided with ==",
-            "f64 tier: real sin/cos from libm, |t| <= 20 rad, tolerance 1e-12 (1+|v|); catches a wrong angle being passed (missing half, Deg/Rad confusion)",
+            "f64 tier: real sin/cos from libm evaluated on the float angle itself; |t| <= 20 rad, tiny angles, neighbourhoods of quarter-turn multiples, and many-turn angles up to 1e15 rad; tolerance 1e-12 (1+|v|), plus 4 eps |t| when the angle is handed over as Deg (one rounded conversion); catches a wrong angle being passed (missing half, Deg/Rad confusion)",
         ],
         fuzz: false,
     }
